@@ -109,6 +109,79 @@ impl Meta {
     }
 }
 
+impl Expression {
+    /// Returns a copy of the expression without the cached variable use of its nodes.
+    #[must_use]
+    pub(crate) fn without_variable_knowledge(&self) -> Expression {
+        use Expression::*;
+        let copy = |expr: &Expression| Box::new(expr.without_variable_knowledge());
+        let copy_all = |exprs: &[Expression]| {
+            exprs.iter().map(Expression::without_variable_knowledge).collect::<Vec<_>>()
+        };
+        let copy_access = |access: &[AccessType]| {
+            access.iter().map(AccessType::without_variable_knowledge).collect::<Vec<_>>()
+        };
+        match self {
+            InfixOp { meta, lhe, infix_op, rhe } => InfixOp {
+                meta: meta.without_variable_knowledge(),
+                lhe: copy(lhe),
+                infix_op: *infix_op,
+                rhe: copy(rhe),
+            },
+            PrefixOp { meta, prefix_op, rhe } => PrefixOp {
+                meta: meta.without_variable_knowledge(),
+                prefix_op: *prefix_op,
+                rhe: copy(rhe),
+            },
+            SwitchOp { meta, cond, if_true, if_false } => SwitchOp {
+                meta: meta.without_variable_knowledge(),
+                cond: copy(cond),
+                if_true: copy(if_true),
+                if_false: copy(if_false),
+            },
+            Variable { meta, name } => {
+                Variable { meta: meta.without_variable_knowledge(), name: name.clone() }
+            }
+            Number(meta, value) => Number(meta.without_variable_knowledge(), value.clone()),
+            Call { meta, name, args } => Call {
+                meta: meta.without_variable_knowledge(),
+                name: name.clone(),
+                args: copy_all(args),
+            },
+            InlineArray { meta, values } => {
+                InlineArray { meta: meta.without_variable_knowledge(), values: copy_all(values) }
+            }
+            Access { meta, var, access } => Access {
+                meta: meta.without_variable_knowledge(),
+                var: var.clone(),
+                access: copy_access(access),
+            },
+            Update { meta, var, access, rhe } => Update {
+                meta: meta.without_variable_knowledge(),
+                var: var.clone(),
+                access: copy_access(access),
+                rhe: copy(rhe),
+            },
+            Phi { meta, args } => {
+                Phi { meta: meta.without_variable_knowledge(), args: args.clone() }
+            }
+        }
+    }
+}
+
+impl AccessType {
+    /// Returns a copy of the access without the cached variable use of its nodes.
+    #[must_use]
+    pub(crate) fn without_variable_knowledge(&self) -> AccessType {
+        match self {
+            AccessType::ArrayAccess(index) => {
+                AccessType::ArrayAccess(Box::new(index.without_variable_knowledge()))
+            }
+            AccessType::ComponentAccess(name) => AccessType::ComponentAccess(name.clone()),
+        }
+    }
+}
+
 impl std::hash::Hash for Meta {
     fn hash<H>(&self, state: &mut H)
     where
